@@ -3,8 +3,12 @@
 Carriers: PointsToCuntzMST.__call__ (the Prim-style loop over a masked cost matrix and the construction of the returned tree),
 PointsToCuntzMST.__init__, PointsToMST.__init__, Tree.from_data_frame.  Library models of this property live in pyvc/ext_C17.py.
 
-What is proved for __call__ (n symbolic, dis = abstract Euclidean distance matrix, K = self.furcations,
-bf = self.bf, all symbolic):
+What is proved for __call__ (n symbolic, K = self.furcations, bf = self.bf, exclude_soma, sort all symbolic):
+  * distance clause (annotation point after `dis = ...`): every entry of `dis` is the Euclidean distance of the two rows of the (soma +) cloud, for whatever
+    expression the carrier computes (norm of differences, sqrt of summed squared differences, Gram matrix ...), over the reals; float clause: that expression
+    has no cancellation of rounded operands (static forward-error rule, see pyvc/ext_C17.FP); then the matrix is renamed to the abstract ghost function edist,
+    whose three properties used later (>= 0, symmetric, zero diagonal) are proved from its definition;
+  * step contract of the loop (obligations `loop-start/...`, `loop-step/...`, kind postcondition): the per-iteration form of the property, see STEP below;
   * spanning clause: after the loop every row is connected; the parent table is a tree rooted at row 0 (ghost depth
     witness, the WFtree form of contracts/common.py); the columns handed to the DataFrame carry id = 0..n-1, the
     input points in order (soma first when given), type soma / glia;
@@ -20,7 +24,8 @@ bf = self.bf, all symbolic):
   * safety: ma.argmin always has an unmasked entry to return; all indexings in bounds; shapes match;
   * frame: `self` and the input point cloud are not written.
 Ghost state (ghost code only, never assumed): g_perm / g_pos attachment order and its inverse, g_crank / g_kid rank
-of a node among its siblings and its inverse, g_depth.  Updated at the annotation point after `(i, j) = ...`.
+of a node among its siblings and its inverse, g_depth, g_nk number of children.  Updated at the annotation point after `(i, j) = ...`.
+The carrier's own child counter is not named: the coupling invariant `some-program-array-counts-the-children` says that some integer array local equals g_nk.
 The tail of the function is REAL: the DataFrame built from the loop's arrays (pd.DataFrame.from_dict is a library model), Tree.from_data_frame
 through the contract verified on the real function below (used modularly, private overlay), sort_tree / _sort_tree / DictSWC.copy inlined,
 sort_nodes_impl through the contract proved under C05 (DEPENDS), whose ghost symbols are defined for the loop's table at the call.  The
@@ -29,7 +34,9 @@ array when sort is on, the identity otherwise), positions / radius / types throu
 greedy attachments read through sg, the branching cap on the returned parent column, ids 0..n-1 and parents first when sorted.
 Defect found here and FIXED in /repo (known_findings.jsonl): with column names other than the default ones and sort=True, _sort_tree stores the new numbering under "id" / "pid" instead
 of the given names; the three clauses marked below were not provable for that variant before the fix.
-MST optimality (Prim => minimum total length) is NOT proved here (bounded stand-in only).
+MST optimality: the postcondition `mst-premise/...` (bf = 0, no limit: every point was attached by a lightest edge across the cut of the points attached before it)
+is the premise of the cut-property lemma lean/Prim.lean (prim_tree_is_minimum / prim_tree_total_is_least, Lean 4 + Mathlib, checked by vcheck); the instantiation
+(V := rows, w := edist, par := pid, pos := g_pos) is by inspection.  In float32 "minimum" holds up to rounding only: bounded stand-in (Kruskal).
 """
 import z3
 
@@ -77,8 +84,11 @@ class St:
         self.bf = to_z3(me.fields["bf"], "real")
         self.n = _iv(v["n"])
         self.k = _iv(v["_k0"]) if "_k0" in v else None
-        self.pid, self.acc, self.furc, self.conn, self.mask, self.dis = (v[x] for x in ("pid", "acc", "furcations", "conn", "mask", "dis"))
+        # furc: the GHOST child count g_nk (maintained by the ghost step), not the program's own counter: which local array of the
+        # carrier counts the children (and under which name) is left to the coupling invariant `some-program-array-counts-the-children`
+        self.pid, self.acc, self.furc, self.conn, self.mask, self.dis = (v[x] for x in ("pid", "acc", "g_nk", "conn", "mask", "dis"))
         self.pos, self.perm, self.crank, self.kid, self.depth = (v[x] for x in ("g_pos", "g_perm", "g_crank", "g_kid", "g_depth"))
+        self.counters = [x for nm, x in v.items() if not nm.startswith("g_") and isinstance(x, X.V1) and x.kind == "int"]
 
     FIELDS = ("pid", "acc", "furc", "conn", "mask", "dis", "pos", "perm", "crank", "kid", "depth")
 
@@ -163,56 +173,99 @@ def _q(*names):
 
 def inv(which):
     def f(E, v, o):
-        s = St(v)
-        n, k = s.n, s.k
-        a, b, r = _q("a", "b", "r")
-        if which == "order-is-a-bijection":
-            return z3.And(
-                s.Pos(0) == 0,
-                z3.ForAll([a], z3.Implies(s.inr(a), z3.And(s.inr(s.Pos(a)), s.Perm(s.Pos(a)) == a))),
-                z3.ForAll([b], z3.Implies(s.inr(b), z3.And(s.inr(s.Perm(b)), s.Pos(s.Perm(b)) == b))),
-            )
-        if which == "connected-are-the-first-k+1-of-the-order":
-            return z3.ForAll([a], z3.Implies(s.inr(a), s.Conn(a) == (s.Pos(a) <= k)))
-        if which == "parent-table":
-            p = s.Pid(a)
-            return z3.And(
-                s.Pid(0) == -1,
-                z3.ForAll([a], z3.Implies(z3.And(s.inr(a), a != 0), z3.If(s.Conn(a), z3.And(s.inr(p), s.Conn(p), s.Pos(p) < s.Pos(a)), p == -1))),
-            )
-        if which == "depth-witness":
-            return z3.And(
-                s.Depth(0) == 0,
-                z3.ForAll([a], z3.Implies(z3.And(s.inr(a), a != 0, s.Conn(a)), z3.And(s.Depth(a) == s.Depth(s.Pid(a)) + 1, s.Depth(a) > 0))),
-            )
-        if which == "path-length":
-            p = s.Pid(a)
-            return z3.And(
-                s.Acc(0) == 0,
-                z3.ForAll([a], z3.Implies(z3.And(s.inr(a), a != 0), z3.If(s.Conn(a), s.Acc(a) == s.Acc(p) + s.Dis(p, a), s.Acc(a) == 0))),
-            )
-        if which == "furcations-count-the-children":
-            p, c = s.Pid(a), s.Kid(a, r)
-            return z3.And(
-                z3.ForAll([a], z3.Implies(s.inr(a), z3.And(s.Furc(a) >= 0, z3.Implies(z3.Not(s.Conn(a)), s.Furc(a) == 0)))),
-                z3.ForAll([a], z3.Implies(z3.And(s.inr(a), a != 0, s.Conn(a)), z3.And(1 <= s.Crank(a), s.Crank(a) <= s.Furc(p), s.Kid(p, s.Crank(a)) == a))),
-                z3.ForAll([a, r], z3.Implies(z3.And(s.inr(a), 1 <= r, r <= s.Furc(a)), z3.And(s.inr(c), c != 0, s.Conn(c), s.Pid(c) == a, s.Crank(c) == r))),
-            )
-        if which == "cap":
-            return z3.Implies(s.K != -1, z3.ForAll([a], z3.Implies(z3.And(s.inr(a), z3.Or(z3.Not(s.ex), a != 0)), s.Furc(a) <= s.K)))
-        if which == "latest-node-has-no-children":
-            return s.Furc(s.Perm(k)) == 0
-        if which == "mask-characterisation":
-            return z3.ForAll([a, b], z3.Implies(z3.And(s.inr(a), s.inr(b)), z3.Not(s.Mask(a, b)) == s.cand(a, b)))
-        if which == "every-attachment-so-far-was-greedy":
-            return s.greedy_history(True)
-        raise KeyError(which)
+        r = _inv(which, E, v, o)
+        E.ghost[("c17-inv", which)] = r
+        return r
 
     return f
 
 
+def _inv(which, E, v, o):
+    s = St(v)
+    n, k = s.n, s.k
+    a, b, r = _q("a", "b", "r")
+    if which == "order-is-a-bijection":
+        return z3.And(
+            s.Pos(0) == 0,
+            z3.ForAll([a], z3.Implies(s.inr(a), z3.And(s.inr(s.Pos(a)), s.Perm(s.Pos(a)) == a))),
+            z3.ForAll([b], z3.Implies(s.inr(b), z3.And(s.inr(s.Perm(b)), s.Pos(s.Perm(b)) == b))),
+        )
+    if which == "connected-are-the-first-k+1-of-the-order":
+        return z3.ForAll([a], z3.Implies(s.inr(a), s.Conn(a) == (s.Pos(a) <= k)))
+    if which == "parent-table":
+        p = s.Pid(a)
+        return z3.And(
+            s.Pid(0) == -1,
+            z3.ForAll([a], z3.Implies(z3.And(s.inr(a), a != 0), z3.If(s.Conn(a), z3.And(s.inr(p), s.Conn(p), s.Pos(p) < s.Pos(a)), p == -1))),
+        )
+    if which == "depth-witness":
+        return z3.And(
+            s.Depth(0) == 0,
+            z3.ForAll([a], z3.Implies(z3.And(s.inr(a), a != 0, s.Conn(a)), z3.And(s.Depth(a) == s.Depth(s.Pid(a)) + 1, s.Depth(a) > 0))),
+        )
+    if which == "path-length":
+        p = s.Pid(a)
+        return z3.And(
+            s.Acc(0) == 0,
+            z3.ForAll([a], z3.Implies(z3.And(s.inr(a), a != 0), z3.If(s.Conn(a), s.Acc(a) == s.Acc(p) + s.Dis(p, a), s.Acc(a) == 0))),
+        )
+    if which == "furcations-count-the-children":
+        p, c = s.Pid(a), s.Kid(a, r)
+        return z3.And(
+            z3.ForAll([a], z3.Implies(s.inr(a), z3.And(s.Furc(a) >= 0, z3.Implies(z3.Not(s.Conn(a)), s.Furc(a) == 0)))),
+            z3.ForAll([a], z3.Implies(z3.And(s.inr(a), a != 0, s.Conn(a)), z3.And(1 <= s.Crank(a), s.Crank(a) <= s.Furc(p), s.Kid(p, s.Crank(a)) == a))),
+            z3.ForAll([a, r], z3.Implies(z3.And(s.inr(a), 1 <= r, r <= s.Furc(a)), z3.And(s.inr(c), c != 0, s.Conn(c), s.Pid(c) == a, s.Crank(c) == r))),
+        )
+    if which == "some-program-array-counts-the-children":
+        # coupling of the program's bookkeeping with the ghost count: SOME integer array local of the carrier (whatever its
+        # name) holds, for every row, the number of children attached so far
+        return z3.Or(*[z3.ForAll([a], z3.Implies(s.inr(a), X.sel1(c.arr, a) == s.Furc(a))) for c in s.counters])
+    if which == "cap":
+        return z3.Implies(s.K != -1, z3.ForAll([a], z3.Implies(z3.And(s.inr(a), z3.Or(z3.Not(s.ex), a != 0)), s.Furc(a) <= s.K)))
+    if which == "latest-node-has-no-children":
+        return s.Furc(s.Perm(k)) == 0
+    if which == "mask-characterisation":
+        return z3.ForAll([a, b], z3.Implies(z3.And(s.inr(a), s.inr(b)), z3.Not(s.Mask(a, b)) == s.cand(a, b)))
+    if which == "every-attachment-so-far-was-greedy":
+        return s.greedy_history(True)
+    raise KeyError(which)
+
+
 INVS = ["order-is-a-bijection", "connected-are-the-first-k+1-of-the-order", "parent-table", "depth-witness", "path-length",
-        "furcations-count-the-children", "cap", "latest-node-has-no-children", "mask-characterisation", "every-attachment-so-far-was-greedy"]
+        "furcations-count-the-children", "cap", "latest-node-has-no-children", "mask-characterisation", "every-attachment-so-far-was-greedy",
+        "some-program-array-counts-the-children"]  # the coupling comes last: a carrier whose bookkeeping differs must first face the clauses above
+
+
+# ---------------------------------------------------------- step contract of the loop
+# The loop body, run from an ARBITRARY state that satisfies the loop invariant, is verified against a step contract whose clauses are
+# the per-iteration form of the property (mechanism anchors of C17: "Prim-style greedy loop over a masked cost matrix", "mask
+# bookkeeping for connected points and saturated parents").  These are clauses of the property, not proof structure: they are emitted
+# as obligations of kind `postcondition` (`.../loop-step/<clause>`, and `.../loop-start/<clause>` for the state in which the loop is
+# entered) right before the loop invariant of the same content, which then finds them among its hypotheses.
+STEP = {
+    "connected-are-the-first-k+1-of-the-order": "exactly-the-points-attached-so-far-are-marked-connected",
+    "parent-table": "every-connected-point-but-the-root-has-a-parent-that-was-connected-before-it-and-no-other-point-has-a-parent",
+    "path-length": "path-length-of-every-connected-point-is-its-parents-plus-the-edge-length",
+    "furcations-count-the-children": "the-children-of-every-point-are-numbered-1-to-its-child-count",
+    "cap": "no-non-exempt-point-has-more-than-K-children",
+    "mask-characterisation": "open-cells-of-the-mask-are-exactly-the-edges-from-a-connected-unsaturated-point-to-an-unconnected-point",
+}
+STEP_NOTE = "step contract of the loop (arbitrary iteration, arbitrary state satisfying the loop invariant): a clause of the property per iteration"
+FN = "PointsToCuntzMST.__call__"
+
+
+def step_hint(label, phase):
+    def h(E, v):
+        goal = E.ghost.get(("c17-inv", label))
+        if goal is None:
+            goal = _inv(label, E, v, None)
+        E.prove(f"{FN}/{'loop-start' if phase == 'entry' else 'loop-step'}/{STEP[label]}", goal, "postcondition", STEP_NOTE)
+
+    return h
+
+
+def step_hints():
+    return {f"loop0/{phase}/{label}": step_hint(label, phase) for label in STEP for phase in ("entry", "preserved")}
 
 
 # ---------------------------------------------------------- annotation point: right after `(i, j) = ...`
@@ -230,9 +283,13 @@ def after_pick(which):
         i, j = _iv(v["i"]), _iv(v["j"])
         a, b = _q("a", "b")
         if which == "chosen-edge-joins-connected-unsaturated-to-unconnected":
-            return z3.And(s.inr(i), s.inr(j), s.cand(i, j))
+            goal = z3.And(s.inr(i), s.inr(j), s.cand(i, j))
+            E.prove(f"{FN}/loop-step/{which}", goal, "postcondition", STEP_NOTE)
+            return goal
         if which == "chosen-edge-minimises-length-plus-bf-times-path-length-over-exactly-the-candidates":
-            return z3.ForAll([a, b], z3.Implies(z3.And(s.inr(a), s.inr(b), s.cand(a, b)), s.cost(i, j) <= s.cost(a, b)))
+            goal = z3.ForAll([a, b], z3.Implies(z3.And(s.inr(a), s.inr(b), s.cand(a, b)), s.cost(i, j) <= s.cost(a, b)))
+            E.prove(f"{FN}/loop-step/{which}", goal, "postcondition", STEP_NOTE)
+            return goal
         if which == "ghost-step":
             # ghost code (touches ghost arrays only): j takes position k+1 of the attachment order (swap), becomes the
             # (furcations[i]+1)-th child of i, one level below i
@@ -242,6 +299,7 @@ def after_pick(which):
             s.perm.arr = z3.Store(z3.Store(s.perm.arr, t, w), k + 1, j)
             s.pos.arr = z3.Store(z3.Store(s.pos.arr, w, t), j, k + 1)
             rk = s.Furc(i) + 1
+            s.furc.arr = z3.Store(s.furc.arr, i, rk)
             s.crank.arr = z3.Store(s.crank.arr, j, rk)
             old = s.kid.arr
             s.kid.arr = z3.Store(old, i, rk, j)
@@ -251,6 +309,65 @@ def after_pick(which):
         raise KeyError(which)
 
     return f
+
+
+# ---------------------------------------------------------- annotation point: right after `dis = ...`
+def after_dis(which):
+    """The matrix the loop works on IS the matrix of Euclidean distances of the (soma +) points - proved for the expression the carrier
+    computes, over the reals - and it is computed without cancellation of rounded quantities (float clause, static).  After that the
+    matrix is renamed to the abstract ghost function edist (definition: the same expression), of which only edist >= 0, symmetry and
+    the zero diagonal - each proved from the definition - are kept: the loop's proof stays in linear arithmetic."""
+    def f(E, v, o):
+        from pyvc.engine import Unsupported
+
+        if E.ghost.get("c17-dis-annotated"):
+            return True
+        dis, P = v["dis"], v["points"]
+        if not (isinstance(dis, X.M2) and dis.kind == "real" and isinstance(P, X.Points)):
+            return False
+        n = P.nz()
+        a, b = z3.Ints("ed_a ed_b")
+        inr = z3.And(0 <= a, a < n, 0 <= b, b < n)
+        if which == "an-n-by-n-matrix":
+            return z3.And(dis.nz() == n, dis.mz() == n)
+        if which == "every-entry-is-the-euclidean-distance-of-the-two-points":
+            goal = z3.ForAll([a, b], z3.Implies(inr, X.sel2(dis.arr, a, b) == X.RSQRT(X.sumsq(P, a, b))))
+            E.prove(f"{FN}/distance-matrix/{which}", goal, "postcondition", "real-number semantics of the expression the carrier computes")
+            return goal
+        if which == "computed-without-cancellation-of-rounded-operands":
+            fp = getattr(dis, "fp", None)
+            if fp is None:
+                raise Unsupported("rounding-error bookkeeping lost on the way to the distance matrix (an operation without an FP rule)")
+            note = ("float clause (static forward-error rule, NOT a floating-point semantics): every + / - on the way from the input coordinates to the matrix combines exact inputs, or "
+                    f"operands of coherent sign; then each entry has a relative error of at most gamma_k, k <= {fp.ops}")
+            for what, formula in fp.sites:
+                E.prove(f"{FN}/float/distance-matrix-is-{which}", formula, "postcondition", note + f"; site: {what}")
+            if not fp.sites:
+                E.prove(f"{FN}/float/distance-matrix-is-{which}", z3.BoolVal(True), "postcondition", note)
+            E.assumptions.add("float clause of C17 (distance matrix only): relative error <= gamma_k for an expression whose additions / subtractions never combine rounded operands of "
+                              "incoherent sign (standard forward-error analysis; the rule is applied to the model's expression, it is not a floating-point semantics)")
+            return True
+        if which == "renamed-to-the-abstract-distance-function":
+            ED = z3.Function(fresh_name("edist"), I, I, z3.RealSort())
+            x = z3.Real("ed_x")
+            defn = z3.ForAll([a, b], ED(a, b) == X.RSQRT(X.sumsq(P, a, b)), patterns=[ED(a, b)])
+            rs = [z3.ForAll([x], X.RSQRT(x) >= 0, patterns=[X.RSQRT(x)]), X.RSQRT(z3.RealVal(0)) == 0]
+            E.assumptions.add("ghost definition: edist(a, b) := rsqrt((x_a - x_b)^2 + (y_a - y_b)^2 + (z_a - z_b)^2) for the rows of the (soma +) point cloud; after the distance matrix has been "
+                              "proved equal to it, the loop's proof uses only edist >= 0, edist(a, b) = edist(b, a), edist(a, a) = 0, each proved from the definition and rsqrt >= 0, rsqrt(0) = 0")
+            for nm, g in (("non-negative", z3.ForAll([a, b], ED(a, b) >= 0, patterns=[ED(a, b)])),
+                          ("symmetric", z3.ForAll([a, b], ED(a, b) == ED(b, a), patterns=[ED(a, b)])),
+                          ("zero-on-the-diagonal", z3.ForAll([a], ED(a, a) == 0, patterns=[ED(a, a)]))):
+                prove_from(E, f"{FN}/distance-matrix/euclidean-distance-is-{nm}", [defn] + rs, g)
+            dis.arr = X.lam2(lambda p, q: ED(p, q))  # equal to the proved contents on all rows / columns in range, by the definition of edist
+            E.ghost["c17-dis-annotated"] = True
+            return True
+        raise KeyError(which)
+
+    return f
+
+
+AFTER_DIS = ["an-n-by-n-matrix", "every-entry-is-the-euclidean-distance-of-the-two-points", "computed-without-cancellation-of-rounded-operands",
+             "renamed-to-the-abstract-distance-function"]
 
 
 def argmin_hint(E, v):
@@ -358,6 +475,20 @@ def post(which):
             return z3.And(inv("order-is-a-bijection")(E, v, o), z3.ForAll([a], z3.Implies(z3.And(0 < a, a < n), s.Pos(s.Pid(a)) < s.Pos(a))))
         if which == "each-point-was-attached-by-a-cheapest-admissible-edge":
             return s.greedy_history(False)
+        if which == "without-balancing-factor-and-limit-every-point-was-attached-by-a-lightest-edge-across-the-cut-of-the-points-attached-before-it":
+            # PREMISE of the cut-property lemma lean/Prim.lean (prim_tree_is_minimum, prim_tree_total_is_least): with (inj) / (parents-first) from
+            # `attachment-order-is-a-bijection-with-parents-first` and w := the Euclidean distance (non-negative, symmetric: proved at the distance
+            # matrix), the lemma gives: total length of the parent table = minimum over all connected graphs on the points = length of a minimum
+            # spanning tree.  umul is the abstraction of the real product bf * acc[a]; its one property needed here, 0 * y = 0, is an explicit hypothesis.
+            y = z3.Real("mst_y")
+            v_, a_, b_ = z3.Ints("mst_v mst_a mst_b")
+            zero_mul = z3.ForAll([y], X.UMUL(z3.RealVal(0), y) == 0, patterns=[X.UMUL(z3.RealVal(0), y)])
+            prem = z3.ForAll([v_, a_, b_], z3.Implies(z3.And(s.inr(v_), v_ != 0, s.inr(a_), s.inr(b_), s.Pos(a_) < s.Pos(v_), s.Pos(b_) >= s.Pos(v_)),
+                                                       s.Dis(s.Pid(v_), v_) <= s.Dis(a_, b_)), patterns=[z3.MultiPattern(s.Dis(s.Pid(v_), v_), s.Dis(a_, b_))])
+            E.assumptions.add("assumed-lemma: prim cut-property (lean/Prim.lean: prim_tree_is_minimum, prim_tree_connected, prim_tree_weight_eq, prim_tree_total_is_least) - from the proved "
+                              "postconditions `attachment-order-is-a-bijection-with-parents-first` and `mst-premise/...` (w := Euclidean distance, V := the rows) it follows that the total "
+                              "length of the returned parent table is that of a minimum spanning tree; the conclusion itself (a sum over the rows) is not restated in SMT")
+            return z3.Implies(z3.And(s.bf == 0, s.K == -1, zero_mul), prem)
         if which == "furcations-count-the-children-and-respect-the-limit":
             return z3.And(inv("furcations-count-the-children")(E, v, o), inv("cap")(E, v, o))
         if which == "transform-object-unchanged":
@@ -503,7 +634,9 @@ def after_tree(which):
 
 POSTS = ["every-point-is-connected", "parent-table-is-a-tree-rooted-at-0", "rows-are-the-input-points-once-each-in-order",
          "no-non-exempt-node-has-more-than-K-children", "furcations-count-the-children-and-respect-the-limit", "path-length-to-the-root",
-         "attachment-order-is-a-bijection-with-parents-first", "each-point-was-attached-by-a-cheapest-admissible-edge", "transform-object-unchanged"]
+         "attachment-order-is-a-bijection-with-parents-first", "each-point-was-attached-by-a-cheapest-admissible-edge",
+         "mst-premise/without-balancing-factor-and-limit-every-point-was-attached-by-a-lightest-edge-across-the-cut-of-the-points-attached-before-it",
+         "transform-object-unchanged"]
 
 
 def call_setup(soma_given, names_given=False):
@@ -526,7 +659,7 @@ def call_setup(soma_given, names_given=False):
         ghosts = dict(
             g_pos=X.V1(ident, n, "int", name="g_pos"), g_perm=X.V1(ident, n, "int", name="g_perm"),
             g_crank=X.V1(z3.K(I, z3.IntVal(0)), n, "int", name="g_crank"), g_kid=X.M2.const("int", n, n, 0, name="g_kid"),
-            g_depth=X.V1(z3.K(I, z3.IntVal(0)), n, "int", name="g_depth"),
+            g_depth=X.V1(z3.K(I, z3.IntVal(0)), n, "int", name="g_depth"), g_nk=X.V1(z3.K(I, z3.IntVal(0)), n, "int", name="g_nk"),
         )
         names = SWCNames(id="ID", type="T", x="X", y="Y", z="Z", r="R", pid="PID") if names_given else None
         return dict(self=me, points=pts, soma=soma, names=names, **ghosts)
@@ -560,12 +693,12 @@ def register(R: Registry):
         prop="C17",
         variants={"soma=None": call_setup(False), "soma given": call_setup(True), "soma=None, names= given (deprecated keyword)": call_setup(False, True)},
         requires=[("bf-in-unit-interval", pre("bf-in-unit-interval")), ("branching-limit-is-minus-one-or-positive", pre("branching-limit-is-minus-one-or-positive"))],
-        ensures=[(p, post(p)) for p in POSTS] + [("returned-tree/" + p, ret_post(p)) for p in RET_POSTS],
-        loops={0: dict(invariant=[(x, inv(x)) for x in INVS], modifies=["g_pos", "g_perm", "g_crank", "g_kid", "g_depth"])},
+        ensures=[(p, post(p.split("/")[-1])) for p in POSTS] + [("returned-tree/" + p, ret_post(p)) for p in RET_POSTS],
+        loops={0: dict(invariant=[(x, inv(x)) for x in INVS], modifies=["g_pos", "g_perm", "g_crank", "g_kid", "g_depth", "g_nk"])},
         options=dict(
             registry=_Overlay(R, local),
-            asserts_after={"i": [(x, after_pick(x)) for x in after_i], "t": [(x, after_tree(x)) for x in after_t]},
-            hints={"safety/argmin-some-unmasked-entry": argmin_hint, "loop0/preserved/every-attachment-so-far-was-greedy": greedy_hint},
+            asserts_after={"dis": [(x, after_dis(x)) for x in AFTER_DIS], "i": [(x, after_pick(x)) for x in after_i], "t": [(x, after_tree(x)) for x in after_t]},
+            hints={"safety/argmin-some-unmasked-entry": argmin_hint, "loop-step/chosen-edge-joins-connected-unsaturated-to-unconnected": argmin_hint, "loop0/preserved/every-attachment-so-far-was-greedy": greedy_hint, **step_hints()},
         ),
         notes="n symbolic; dis abstract (edist >= 0, symmetric, zero diagonal); bf, K, exclude_soma, sort symbolic; names=None, and one concrete non-default SWCNames for the deprecated keyword. "
               "Tail real: Tree.from_data_frame by its verified contract, sort_tree inlined over C05's contract of sort_nodes_impl; K = 0 and K < -1 excluded by precondition.",
